@@ -241,6 +241,8 @@ def check_scenario(I, h, r, n_ap, nb_max, nb_min):          # noqa: C901
     paths = {}
     for p, cf in h.written:
         paths.setdefault(p, []).append(cf)
+    if any(not isinstance(p, str) for p in paths):
+        return 'undecided', ['the name of a file that is written was not followed: %r' % (next(p for p in paths if not isinstance(p, str)),)]
     want_paths = {'M/convolved/MO%03d.fits' % (j + 1): j for j in expect}
     for p in sorted(set(paths) | set(want_paths), key=str):
         if p not in want_paths:
